@@ -26,6 +26,11 @@ pub struct Case {
   /// different arms of the range dispatch tables than all-literal or all-variable ones
   #[serde(default = "all_follow")]
   pub vars: u8,
+  /// where the range is written: 0 = a top-level statement; 1 = the body of a match arm whose pattern binds the variable operands;
+  /// 2 = the same with globals of the pattern variables' names holding other values (the arm's bindings must win); 3 = the body of a
+  /// user-defined function whose parameters are the variable operands
+  #[serde(default)]
+  pub ctx: u8,
 }
 fn all_follow() -> u8 { 255 }
 
@@ -109,10 +114,10 @@ impl Prop for C15 {
   fn budget(t: Tier) -> u32 { t.pick(40_000, 400_000) }
   fn strategy(_t: Tier, _k: &Known) -> BoxedStrategy<Case> {
     let kinds = range_kinds();
-    (pick(kinds), any::<bool>(), any::<bool>(), proptest::option::weighted(0.15, 3usize..9), prop_oneof![1 => Just(255u8), 1 => 0u8..8])
-      .prop_flat_map(|(k, inclusive, inline, index_len, vars)| {
+    (pick(kinds), any::<bool>(), any::<bool>(), proptest::option::weighted(0.15, 3usize..9), prop_oneof![1 => Just(255u8), 1 => 0u8..8], prop_oneof![5 => Just(0u8), 1 => Just(1u8), 1 => Just(2u8), 1 => Just(3u8)])
+      .prop_flat_map(|(k, inclusive, inline, index_len, vars, ctx)| {
         let core = if k.is_int() { int_case(k) } else if k == K::R64 { rat_case() } else { float_case(k) };
-        core.prop_map(move |(a, s, b)| Case { a, s, b, inclusive, index_len: if k == K::F64 { index_len } else { None }, inline, vars })
+        core.prop_map(move |(a, s, b)| Case { a, s, b, inclusive, index_len: if k == K::F64 { index_len } else { None }, inline, vars, ctx: if k == K::R64 { 0 } else { ctx } })
       }).boxed()
   }
   fn rule() -> &'static str {
@@ -145,6 +150,16 @@ fn writable_inline(s: &Sc) -> bool {
   }
 }
 
+fn one_of(k: K) -> Sc { if k.is_int() { k.int_sc(&BigInt::from(1)) } else if k == K::F32 { f32b(1.0) } else { f64b(1.0) } }
+
+/// the context actually used: local contexts need at least one variable operand, a kind with ranges, and no index use
+fn eff_ctx(c: &Case) -> u8 {
+  if c.ctx == 0 || c.index_len.is_some() { return 0; }
+  let inline = c.inline && writable_inline(&c.a) && writable_inline(&c.b) && c.s.as_ref().map(writable_inline).unwrap_or(true);
+  let as_var = |bit: u8, x: &Sc| if c.vars == 255 { !inline } else { c.vars & (1 << bit) != 0 || !writable_inline(x) };
+  if as_var(0, &c.a) || c.s.as_ref().map(|x| as_var(1, x)).unwrap_or(false) || as_var(2, &c.b) { c.ctx.min(3) } else { 0 }
+}
+
 fn render(c: &Case) -> Vec<String> {
   let inline = c.inline && writable_inline(&c.a) && writable_inline(&c.b) && c.s.as_ref().map(writable_inline).unwrap_or(true);
   let mut st = vec![];
@@ -154,9 +169,32 @@ fn render(c: &Case) -> Vec<String> {
   if va { st.extend(define_scalar("a", &c.a, false)); }
   if let (Some(s), true) = (&c.s, vs) { st.extend(define_scalar("s", s, false)); }
   if vb { st.extend(define_scalar("b", &c.b, false)); }
-  let (a, s, b) = (if va { "a".to_string() } else { lit(&c.a) }, c.s.as_ref().map(|x| if vs { "s".to_string() } else { lit(x) }), if vb { "b".to_string() } else { lit(&c.b) });
+  let ctx = eff_ctx(c);
+  // in a local context the variable operands are read through names the arm / function binds (pa, ps, pb)
+  let nm = |g: &str| if ctx == 0 { g.to_string() } else { format!("p{}", g) };
+  let (a, s, b) = (if va { nm("a") } else { lit(&c.a) }, c.s.as_ref().map(|x| if vs { nm("s") } else { lit(x) }), if vb { nm("b") } else { lit(&c.b) });
   let dots = if c.inclusive { "..=" } else { ".." };
   let expr = match s { Some(s) => format!("{}..{}{}{}", a, s, dots, b), None => format!("{}{}{}", a, dots, b) };
+  if ctx != 0 {
+    let k = sc_kind(&c.a).unwrap();
+    let globals: Vec<&str> = [("a", va), ("s", vs), ("b", vb)].iter().filter(|(_, v)| *v).map(|(g, _)| *g).collect();
+    let locals: Vec<String> = globals.iter().map(|g| format!("p{}", g)).collect();
+    let one = lit(&one_of(k));
+    if ctx == 3 {
+      let params = locals.iter().map(|l| format!("{}<{}>", l, k.name())).collect::<Vec<_>>().join(", ");
+      let pat = if locals.len() == 1 { locals[0].clone() } else { format!("({})", locals.join(", ")) };
+      st.push(format!("rf({}) => <[{}]>\n  └ {} => {}.\n", params, k.name(), pat, expr));
+      st.push(format!("rf({})", globals.join(", ")));
+    } else {
+      if ctx == 2 {
+        // decoys: globals with the pattern variables' names and other values (each takes the value of the next operand in a cycle)
+        for (i, l) in locals.iter().enumerate() { st.push(format!("{} := {}", l, if locals.len() == 1 { one.clone() } else { globals[(i + 1) % globals.len()].to_string() })); }
+      }
+      let (subject, pat) = if globals.len() == 1 { (globals[0].to_string(), locals[0].clone()) } else { st.push(format!("t := ({})", globals.join(", "))); ("t".to_string(), format!("({})", locals.join(", "))) };
+      st.push(format!("{}? | {} => {} | * => {}..={}.", subject, pat, expr, one, one));
+    }
+    return st;
+  }
   if let Some(n) = c.index_len {
     let elems: Vec<String> = (0..n).map(|i| format!("{}", (i + 1) * 11)).collect();
     st.push(format!("x := [{}]", elems.join(" ")));
@@ -199,6 +237,8 @@ fn check(c: &Case) -> Verdict {
   v.label(format!("kind:{}", k.name()));
   v.label(format!("form:{}", form));
   if c.index_len.is_some() { v.label("as-index"); }
+  let ctx = eff_ctx(c);
+  v.label(format!("context:{}", ["top-level", "match-arm", "match-arm-shadowing-globals", "function-body"][ctx as usize]));
   let (Some(ea), Some(eb), Some(es)) = (ea, eb, es) else {
     // NaN / infinity operand: nothing is demanded except no wrong *finite* progression; label only
     v.label("non-finite-operand");
